@@ -154,6 +154,14 @@ M("id_priority_shift", ["C03", "C15"], "priority at bit 25",
 M("tp21_bam_interval_ignored", ["C09"], "BAM packets sent without the interval",
   ("j1939/j1939_21.py", "                            buf['deadline'] = time.time() + self._minimum_tp_bam_dt_interval\n                            # recalc next wakeup",
    "                            buf['deadline'] = time.time()\n                            # recalc next wakeup"))
+M("tp21_bam_deadline_from_pass_start", ["C09"], "J1939-21 BAM spacing measured from the start of the job pass (shows with two CAs broadcasting at once and slow frame writes)",
+  ("j1939/j1939_21.py", "                            buf['deadline'] = time.time() + self._minimum_tp_bam_dt_interval\n                            # recalc next wakeup",
+   "                            buf['deadline'] = now + self._minimum_tp_bam_dt_interval\n                            # recalc next wakeup"))
+M("tp22_cts_from_global_hijacks_bam", ["C07"], "D26 reverted: flow control frames from SA 255 match a broadcast session",
+  ("j1939/j1939_22.py", "            if self._snd_buffer[buffer_hash]['dest_address'] == ParameterGroupNumber.Address.GLOBAL:\n                # a broadcast session has no flow control (only a frame \"from\" the global address matches it)\n                return\n", ""))
+M("mpg_buffer_deleted_after_send", ["C11"], "D27 reverted: the multi-PG buffer is deleted after the frame was written",
+  ("j1939/j1939_22.py", "                del self._multi_pg_snd_buffer[bufid]\n\n                self.__send_multi_pg(frame_format, buf['cpg'], src_address, dst_address)",
+   "                self.__send_multi_pg(frame_format, buf['cpg'], src_address, dst_address)\n                del self._multi_pg_snd_buffer[bufid]"))
 M("tp21_grant_ignores_rts_limit", ["C09", "C03"], "responder grant ignores the RTS limit",
   ("j1939/j1939_21.py", "            max_num_packages = min(max_num_packages, num_packages)\n", "            max_num_packages = num_packages\n"))
 M("tp21_hold_ignored", ["C09"], "zero-packet CTS treated as 'continue'",
